@@ -259,6 +259,7 @@ func vfRunResp(t *testing.T, sc *vfRespScript, out *vfWriter) { //nolint:gocogni
 	defer verifhook.SetGate(nil)
 
 	var nextRTCP []byte
+	nRTCPReads := 0
 	rtcpReader := ic.BindRTCPReader(interceptor.RTCPReaderFunc(
 		func(b []byte, a interceptor.Attributes) (int, interceptor.Attributes, error) {
 			return copy(b, nextRTCP), a, nil
@@ -427,7 +428,11 @@ func vfRunResp(t *testing.T, sc *vfRespScript, out *vfWriter) { //nolint:gocogni
 			}
 			nextRTCP = raw
 			buf := make([]byte, 1500)
-			if n, _, rerr := rtcpReader.Read(buf, interceptor.Attributes{}); rerr != nil || n != len(raw) {
+			var attrs interceptor.Attributes // every other read: no attributes at all (the wrapped reader hands back what it got)
+			if nRTCPReads++; nRTCPReads%2 == 1 {
+				attrs = interceptor.Attributes{}
+			}
+			if n, _, rerr := rtcpReader.Read(buf, attrs); rerr != nil || n != len(raw) {
 				t.Fatalf("VERIF-FAIL RTCP read through the responder: n=%d err=%v", n, rerr)
 			}
 			started := true
